@@ -120,6 +120,7 @@ def run(chk, tier):
             model["two"] = ("two" + suffix, common.tlc("LookupArg", cfg="LookupArg_two" + suffix, workers=4, timeout=to, tag="c08two"))
             if thorough:
                 model["two_ns1"] = ("two_ns1", common.tlc("LookupArg", cfg="LookupArg_two_ns1", workers=4, timeout=to, tag="c08two1"))
+            model["tables_canary"] = common.tlc("LookupTables", cfg="LookupTables_canary_dedup", workers=1, timeout=600, tag="c08tabcan", heap="1g")
             if variant != "first":
                 model["prefix"] = ("impl_first", common.tlc("LookupArg", cfg="LookupArg_impl_first", workers=1, timeout=600, tag="c08first", heap="1g"))
 
@@ -161,6 +162,16 @@ def run(chk, tier):
     # ---- selection
     for i, s in enumerate(scen):
         s["id"] = scenario_id(s, i)
+    # table-relationship classes (spec/LookupTables.tla): always replayed
+    rt = common.tlc("LookupTables", cfg="LookupTables_t" if thorough else "LookupTables", workers=2, timeout=600)
+    if not rt.ok:
+        raise ToolError("spec LookupTables violates %s" % rt.violated)
+    chk.add_tlc("LookupTables: table identity, related-table scenarios with layout per stored table", rt)
+    related = sorted(common.tagged(rt.prints, "REPLAY"), key=lambda s: json.dumps(s, sort_keys=True))
+    for i, s in enumerate(related):
+        s["id"] = "rel/%s/%s/%s" % (s["rel"], s["width"], "+".join(str(c["n"]) for c in s["classes"]))
+    if len(related) < 20:
+        raise ToolError("LookupTables printed only %d scenarios" % len(related))
     # heavy repetition (one entry looked up 2^16 - 1, 2^16, 2^16 + 5[, 2^17] times): always replayed, honest run only
     heavy = [s for s in scen if any(c["m"] > 1000 for c in s["classes"])]
     scen = [s for s in scen if s not in heavy]
@@ -199,6 +210,11 @@ def run(chk, tier):
         else:
             row["cfg"] = rnd.choice(by_width[w]["strong"])
         rows.append(row)
+    for n, s in enumerate(related):
+        w = s["width"]
+        rows.append({"id": s["id"], "tables": s["tables"], "expect": s["expect"], "interleave": n % 2 == 1, "classes": s["classes"], "rel": s["rel"],
+                     "kinds": ["none", "pair_other_table", "out_notin", "table_cell"], "strategies": strategies,
+                     "cfg": std if w == "std" else rnd.choice(by_width[w]["strong"]), "max_cor": 16})
     for s in heavy:
         rows.append({"id": s["id"], "tables": s["tables"], "expect": s["expect"], "interleave": False, "kinds": ["none"], "strategies": ["plain"],
                      "classes": s["classes"], "cfg": std, "pis": False})
@@ -238,6 +254,8 @@ def run(chk, tier):
     if "prefix" in model:
         chk.canary("LookupArg with InitSre on the FIRST partial polynomial while the chain reads the LAST one is refuted (TLC counterexample)",
                    model["prefix"][1].violated == "Sound")
+    chk.canary("LookupTables with tables de-duplicated by their common prefix is refuted: a lookup into table A of a pair only table B has is accepted "
+               "(TLC counterexample)", model["tables_canary"].violated == "LookupExact")
     for d in CANARIES:
         chk.canary("LookupArg with the %s term disabled accepts a bad assignment (TLC counterexample)" % d, model["canary_" + d].violated is not None)
     chk.exhaustive = False
@@ -271,6 +289,11 @@ def judge(chk, byid, res, rule, variant):
                 chk.note_drift({"scenario": s["id"], "layout": d})
             if x.get("layout"):
                 stats["layout_drift"] = stats.get("layout_drift", 0) + 1
+            for an in x.get("index_anomalies", [])[:2]:
+                # implementation shape; its property-level consequences (an unprovable honest lookup, an accepted pair of the
+                # other table) are VIOLATIONs of their own
+                chk.note_drift({"scenario": s["id"], "table_indices": an,
+                                "what": "different tables share a lookup-table index" if not an["identical"] else "identical tables are stored twice"})
             if not x.get("oracle_honest_ok", True):
                 # the library's own witness (lookup rows, table rows, padding) violates the lookup relation / gates per
                 # the oracle although the honest proof verified: an accepted proof for a violating assignment
@@ -313,6 +336,34 @@ def judge(chk, byid, res, rule, variant):
             if any(x.get("id") == hid and x.get("complete") is False for x in res):
                 continue            # already reported as a violation above
             raise ToolError("vacuity: the heavy-repetition scenario %s (%d lookups of one entry) did not complete" % (hid, m))
+    # prefix pairs, both declaration orders: honest lookups into the tail of the longer table completed, and a forged pair of the
+    # other table (only the longer table has it) met plain and the external prover and was judged
+    rel_of = {r["id"]: r["rel"] for r in byid.values() if "rel" in r}
+    relstat = {}
+    for x in res:
+        rel = rel_of.get(x.get("id"))
+        if rel is None:
+            continue
+        d = relstat.setdefault(rel, {"complete": 0, "forged": {}})
+        if x.get("complete") is True and not x["wrong_outputs"]:
+            d["complete"] += 1
+        if x.get("kind") == "pair_other_table" and x.get("violated") and x.get("bad_pairs"):
+            d["forged"][x["strategy"]] = d["forged"].get(x["strategy"], 0) + 1
+    chk.extra["related_tables"] = relstat
+    if rel_of:
+        for rel in ("prefix_long_first", "prefix_short_first", "long_prefix_identical", "short_long_shorter", "diff_first", "diff_last",
+                    "diff_outputs_from", "permuted"):
+            d = relstat.get(rel, {"complete": 0, "forged": {}})
+            incomplete = any(rel_of.get(x.get("id")) == rel and x.get("complete") is False for x in res)
+            if d["complete"] == 0 and not incomplete:
+                raise ToolError("vacuity: no related-table scenario of class %s completed" % rel)
+            for st in ("plain", "ext_plain", "ext_shift"):
+                if rel == "permuted":
+                    continue            # the same pairs in another order: no pair belongs to the other table only
+                if d["forged"].get(st, 0) == 0 and not incomplete:
+                    raise ToolError("vacuity: class %s: no forged pair of the other table under %s" % (rel, st))
+        if relstat.get("identical", {"complete": 0})["complete"] == 0:
+            raise ToolError("vacuity: no scenario with identical (shared) tables completed")
     g = {}
     for x in res:
         if "kind" not in x or not x.get("violated") or "table" not in x.get("desc", {}):
